@@ -168,5 +168,7 @@ def run(ctx):
         "impl_vs_judge_failures": judge_bad, "model_vs_impl_disagreements": corr_bad,
     })
     if evals == 0:
-        ctx.oblige("run:driver-produced-results", False, out[-500:])
+        ctx.oblige("run:driver-produced-results", False,
+                   ("a controlled schedule can only be replayed with hooks/C19-loader-points.diff applied "
+                    "(tools/with_patch hooks/C19-loader-points.diff -- ./check C19 --replay <file>); " if not hook else "") + out[-500:])
     return ctx.finish()
